@@ -152,7 +152,10 @@ func execEnv(env expand.Environ) []string {
 
 func (r *Runner) lookupVar(name string) expand.Variable {
 	if name == "" {
-		panic("variable name must not be empty")
+		// Programs can ask for the empty name, for example via
+		// `unset ""`, `[[ -v "" ]]` or a nameref to an empty string.
+		// No variable has that name.
+		return expand.Variable{}
 	}
 	var vr expand.Variable
 	switch name {
